@@ -760,7 +760,9 @@ class BaseBackend(CodeGen):
                 state_rec[idx, :] = y
                 idx += 1
             step = i + t0
-            rhs = func(step, y, *args)
+            # own copy of the predictor slope: in-place vector fields return the same `dy` buffer on every call,
+            # so the corrector evaluation below would otherwise overwrite `rhs`
+            rhs = func(step, y, *args) + 0.0
             y_0 = y + dt * rhs
             y += dt/2 * (rhs + func(step, y_0, *args))
             if has_dde:
